@@ -10,7 +10,8 @@ LEVEL = "exploration"
 RULE = ("small multi-threaded programs of buffered mutators (setitem, delitem, update, setdefault, append, "
         "extend, insert, reset, clear; 2-3 threads x 1-2 ops, unique values) run inside one "
         "Class.buffer_backend(capacity) context on {distinct files, one file through two objects (also: one of them "
-        "empties the collection between two modifications through the other, every operation flushing), one "
+        "empties the collection between two modifications through the other, every operation flushing; a root reset() "
+        "that changes only JSON types as the first buffered operation on a file), one "
         "object}, capacities {default, 0, one byte / one file too small so that a flush is forced inside "
         "another thread's operation window, exactly fitting}, both buffering strategies, dict and list; "
         "deterministic line-level scheduler with a full delay sweep per thread (+ PCT/random-walk schedules "
@@ -42,6 +43,18 @@ def plan(tier, seed):
             specs.append({"cls": cname, "seed": seed, "tier": tier,
                           "start": pi * n // pieces, "count": (pi + 1) * n // pieces - pi * n // pieces})
     return specs
+
+
+def _retype(x):
+    if isinstance(x, bool):
+        return int(x)
+    if isinstance(x, int):
+        return bool(x) if x in (0, 1) else float(x)
+    if isinstance(x, dict):
+        return {k: _retype(v) for k, v in x.items()}
+    if isinstance(x, list):
+        return [_retype(v) for v in x]
+    return x
 
 
 def make_prog(spec, i):
@@ -137,6 +150,19 @@ def make_prog(spec, i):
             args = concgen.dict_op(r, op, 0, si, base) if kind == "dict" else concgen.list_op(r, op, 0, si, base)
             threads[0].append({"op": op, "h": 0, "path": [], "args": args})
         with_cr = True
+    retyped = not directed and not emptied and i % 8 == 7
+    if retyped:
+        # the first buffered operation on a file is a root reset() to content that is ==-equal to the file's but of
+        # other JSON types (1 -> 1.0, 0 -> False): it is a modification and must reach the file
+        nthreads, nfiles = 2, 2
+        roots = [[0, 0], [1, 1]]
+        inits = [copy.deepcopy(base), copy.deepcopy(base)]
+        topo = "type_only_reset"
+        op = r.choice(DICT_OPS if kind == "dict" else LIST_OPS)
+        args = concgen.dict_op(r, op, 1, 0, base) if kind == "dict" else concgen.list_op(r, op, 1, 0, base)
+        threads = [[{"op": "reset", "h": 0, "path": [], "args": [_retype(base)]}],
+                   [{"op": op, "h": 1, "path": [], "args": args}]]
+        with_cr = True
     if not directed and topo in ("distinct_files", "one_file_two_objects") and r.random() < 0.35:
         # every thread constructs its own object inside the context, uses it and releases it before it ends: what it
         # buffered must reach the file when the context exits all the same
@@ -166,6 +192,8 @@ def make_prog(spec, i):
     # some objects load before the threads start (first touch outside the threads)
     if r.random() < 0.4 and roots:
         prog["pre"] = [{"op": "len", "h": roots[0][0], "path": [], "args": []}]
+    if retyped:
+        prog["pre"] = []
     if emptied:
         prog["pre"] = [{"op": "len", "h": 0, "path": [], "args": []}, {"op": "len", "h": 1, "path": [], "args": []}]
     return prog, {"topology": topo, "cap": "default" if cap is None else ("zero" if cap == 0 else "small"),
